@@ -42,9 +42,10 @@ Proof.
   induction n as [|n IH]; intros pol payreq d w r w' es H.
   - rewrite pay_loop_O in H. msym. constructor.
   - rewrite pay_loop_S in H. msym; list_simpl; try constructor.
-    all: try (apply pay_attempt_g05; assumption).
-    all: try (eapply IH; eauto).
-    all: try constructor.
+    + apply pay_attempt_g05; auto.
+    + constructor.
+    + apply pay_attempt_g05; auto.
+    + eapply IH; eauto.
 Qed.
 
 Section Guard.
